@@ -1,4 +1,4 @@
-use std::collections::{BTreeMap, HashSet};
+use std::collections::{BTreeMap, BTreeSet};
 use std::fmt;
 use std::str::FromStr;
 
@@ -766,7 +766,7 @@ impl ComponentDefinition {
     ) -> Result<crate::Context, String> {
         let mut context = crate::Context::new();
         let mut rest_map = crate::value::Map::new();
-        let mut unknown_keys = HashSet::new();
+        let mut unknown_keys = BTreeSet::new();
 
         // Process all provided keys - collect unknowns into rest or track for error
         for key in provided_keys {
